@@ -13,6 +13,7 @@ import (
 	"encoding/base64"
 	"encoding/json"
 	"errors"
+	"fmt"
 	"os"
 	"path/filepath"
 	"strings"
@@ -21,6 +22,7 @@ import (
 func init() {
 	vhRegister("vh_C02_loadlinks", vh_C02_loadlinks)
 	vhRegister("vh_C15_loadlinks", vh_C15_loadlinks)
+	vhRegister("vh_C20_naming", vh_C20_naming)
 	vhRegister("vh_C12_load", vh_C12_load)
 	vhRegister("vh_C12_load_twin", vh_C12_load_twin)
 	vhRegister("vh_C12_roundtrip", vh_C12_roundtrip)
@@ -168,6 +170,37 @@ func vh_C02_loadlinks(a []int) {
 		}
 	}
 	vReach("C02.end")
+}
+
+// vh_C20_naming: the file name run / record stop give a link
+// (fmt.Sprintf(LinkNameFormat, step, key id) — the cmd harnesses check that the
+// handlers use exactly that) is found by the verifier's loader and filed under
+// the signing key's id, for step names that share characters with the key id,
+// contain dots, or are prefixes of one another.
+func vh_C20_naming(a []int) {
+	step := vConcStr(vPick("step", "build", "package", "b", "my.step", "deadbeef", "a-b_c"))
+	keyid := vConcStr(vPick("keyid", "b7d643dedeadbeef00", "deadbeefcafe123400", "0123456789abcdef00", "aaaaaaaa11"))
+	name := fmt.Sprintf(LinkNameFormat, step, keyid)
+	vhDirNames = []string{"DIR/" + name}
+	other := vConcStr(vPick("other-step", "", "build", "my"))
+	if other != "" && other != step {
+		vhDirNames = append(vhDirNames, "DIR/"+fmt.Sprintf(LinkNameFormat, other, keyid))
+	}
+	m := &vhMeta{tag: name, payload: Link{Type: "link", Name: step}, sigs: []Signature{{KeyID: keyid, Sig: "00"}}}
+	vhLinkFiles = map[string]*vhMeta{"DIR/" + name: m}
+	for _, n := range vhDirNames[1:] {
+		vhLinkFiles[n] = &vhMeta{tag: n, payload: Link{Type: "link"}, sigs: []Signature{{KeyID: keyid, Sig: "00"}}}
+	}
+	layout := Layout{Steps: []Step{{Type: "step", Threshold: 1, SupplyChainItem: SupplyChainItem{Name: step}}}}
+	got, err := LoadLinksForLayout(layout, "DIR")
+	vObserve("naming", err == nil)
+	ok := err == nil && len(got[step]) == 1
+	if ok {
+		gm, _ := got[step][keyid].(*vhMeta)
+		ok = gm == m
+	}
+	vAssert("C20.link-written-by-run-is-found-by-the-verifier-under-the-signing-key-id", ok)
+	vReach("C20.end")
 }
 
 // ---- C12: strict loading ---------------------------------------------------------
